@@ -470,6 +470,56 @@ def check(prog, run):
             run.report(r, "%s:Schema._replace_types_and_directives:flag-overwritten" % SCHEMA, rep.where(a),
                        "`%s` overwrites the flag on every iteration: only the last replaced element decides whether caches are rebuilt" % norm_stmt(a))
 
+    # ---- V8 the three root checks are independent of each other
+    check_root_type_table(prog, run, "V8")
+
+
+def check_root_type_table(prog, run, rule_id):
+    from .. import boolx
+    r = run.rule(rule_id, "SchemaValidator.validate_root_types decided row by row: for each of the 27 combinations of (query, "
+                          "mutation, subscription) being absent / an object type / another kind, every execution records exactly one "
+                          "error per offending root (query absent or not an object; mutation / subscription present and not an "
+                          "object) — the checks do not shadow one another, all violations are reported together", 27)
+    f = prog.get_func("py_gql.schema.validation", "SchemaValidator.validate_root_types")
+    run.looked_at(f)
+    roots = ("query_type", "mutation_type", "subscription_type")
+    n_rows = 0
+    for q in ("none", "object", "other"):
+        for m in ("none", "object", "other"):
+            for s_ in ("none", "object", "other"):
+                state = dict(zip(roots, (q, m, s_)))
+
+                def decide(t, state=state):
+                    tt = t.replace(" ", "")
+                    for root, st in state.items():
+                        if "self.schema.%s" % root not in tt:
+                            continue
+                        if tt == "self.schema.%sisNone" % root:
+                            return st == "none"
+                        if tt == "self.schema.%sisnotNone" % root:
+                            return st != "none"
+                        if tt.startswith("isinstance(self.schema.%s," % root):
+                            return st == "object"
+                        if tt == "self.schema.%s" % root:
+                            return st != "none"
+                    return None
+                try:
+                    _ev, exits = boolx.walk_under(f.node, decide)
+                except ValueError as e:
+                    raise AnalysisError("C13.%s: %s" % (rule_id, e))
+                want = (1 if q != "object" else 0) + (1 if m == "other" else 0) + (1 if s_ == "other" else 0)
+                n_rows += 1
+                r.instance("query=%s mutation=%s subscription=%s: %d error(s) expected on %d execution(s)" % (q, m, s_, want, len(exits)), nontrivial=False)
+                for kind, st, env in exits:
+                    got = sum(1 for c in env.get(boolx.CALLS, ()) if isinstance(c.func, ast.Attribute) and c.func.attr == "add_error")
+                    if kind == "raise" or got != want:
+                        run.report(r, "py_gql.schema.validation:SchemaValidator.validate_root_types:row(%s,%s,%s)" % (q, m, s_), f.where(),
+                                   "with query %s, mutation %s and subscription %s, validate_root_types records %d error(s) instead of %d: "
+                                   "one root's violation hides another's" % (q, m, s_, got, want))
+                        break
+    r.instance("%d rows decided" % n_rows)
+    r.instances += n_rows
+
 
 def _walk_no_inner_loops(node):
     stack = [node]
